@@ -105,7 +105,7 @@ def get_expr_end_contract(run, twin=None):
     run.case = None
 
 
-@harness(['C13', 'C01'], 'supp.scope.get_first_body_node_loc')
+@harness(['C13', 'C01', 'C02'], 'supp.scope.get_first_body_node_loc')
 def first_body_node_loc(run):
     """the position from which a def / class body's bindings of parameters are visible: the first statement of the body (the first
     decorator line of a decorated def/class in first position); None for an empty body"""
@@ -160,7 +160,7 @@ def first_body_node_loc(run):
     run.case = None
 
 
-@harness(['C13', 'C01'], 'supp.scope.get_first_body_node_loc[call sites: for body, except body, class body]')
+@harness(['C13', 'C01', 'C02'], 'supp.scope.get_first_body_node_loc[call sites: def body, for body, except body, class body]')
 def first_statement_call_sites(run):
     """a name that becomes visible at the start of a body (a for target, an except name, the names of a class body) is visible from the FIRST
     line of that body: when the body opens with a decorated def / class that is the decorator line, where the name may already be read"""
@@ -178,6 +178,15 @@ def first_statement_call_sites(run):
             'except-name-read-by-the-second-decorator':
                 'def o(d1, d2, E):\n  try:\n    pass\n  except E as e:\n    @d1\n    @d2(e)\n    async def f(): pass\n    return f\n',
         }
+        cases.update({
+            'parameter-read-by-the-decorator-of-a-leading-class': 'def plugin(register):\n    @register\n    class Plugin: pass\n    return Plugin\n',
+            'parameter-read-by-the-decorator-of-a-leading-def': 'def plugin(register):\n    @register\n    def inner(): pass\n    return inner\n',
+            'parameter-read-by-the-decorator-of-a-leading-async-def': 'async def plugin(register):\n    @register.x\n    async def inner(): pass\n    return inner\n',
+            'lambda-free-parameter-read-by-the-second-decorator-of-a-leading-class':
+                'def plugin(a, b):\n    @a\n    @b(a)\n    class Plugin: pass\n    return Plugin\n',
+            'except-name-read-by-the-decorator-of-a-leading-class':
+                'def o(dec, E):\n  try:\n    pass\n  except E as e:\n    @dec(e)\n    class K: pass\n    return K\n',
+        })
         for label, src in cases.items():
             got = [d[:4] for d in L.lint(Pj.Project(['/nonexistent']), src)]
             prove(label, got == [], clause='no diagnostics for\n%s[%r]' % (src, got), path=path)
